@@ -238,6 +238,7 @@ def tissue_events(case, pos, cells, k, src, rng):
     rng.setstate(state)
     ev1 = tissue_event(case, pos, cells, k, src, rng, keep=True)
     vertices, edges, cs = ev1.pop("_objects")
+    rng.random()      # the draw that selected this branch (the state was rewound): the next one is independent of it
     op = rng.choice(["remove", "remove", "stress"])
     try:
         with core.quiet_stdout():
@@ -264,7 +265,13 @@ def tissue_events(case, pos, cells, k, src, rng):
     fr = forsys.frames[0]
     try:
         m, vidx, eidx, cidx = project.project_mesh(fr.vertices, fr.edges, fr.cells)
-    except Exception:
+    except Exception as exc:
+        if op == "stress":
+            # the objects can no longer be read back after a read-only analysis: logged as a raised observation on the
+            # tissue as it was built (judged by TLC: C20.raised)
+            evs.append({"case": case, "ev": "Tissue", "src": src + ":after_" + op, "k": k, "cells": [],
+                        "raised": "read-back after stress tensor " + type(exc).__name__ + ": " + str(exc)[:120],
+                        "mesh": ev1["mesh"], "pos": ev1["pos"], "isb": ev1["isb"]})
         return evs
     ev = {"case": case, "ev": "Tissue", "src": src + ":after_" + op, "k": k, "raised": "", "cells": [],
           "mesh": {"nv": m["nv"], "nc": m["nc"], "C": m["C"], "oc": m["oc"]},
